@@ -165,4 +165,67 @@ theorem pending_verify_waitstop (s : St) (p : Parked) (kn : Nat → Bool) (h : L
   rw [settle_step _ r.2.2 p.isSome (runWorkers_life 12 r.1 hlA) (Or.inl d1)]
   exact ⟨d1, d2⟩
 
+/-! ### `Op.verifyHeld` on a torrent that is not stopped -/
+
+/-- `stop` only ever releases gates. -/
+theorem stop_gates_off (s : St) (e : Bool) (ho : s.gateOpen = false) (hr : s.gateRead = false) :
+    (s.stop e).gateOpen = false ∧ (s.stop e).gateRead = false := by
+  rw [stop_eq]
+  split
+  · exact ⟨ho, hr⟩
+  · constructor
+    · simp only [stopRun, stopFin_gateOpen, stopVer_gateOpen]
+      unfold stopAlloc
+      repeat' split
+      all_goals simp [ho]
+    · simp only [stopRun, stopFin_gateRead]
+      unfold stopVer
+      split
+      · rfl
+      · simp [hr]
+
+/-- As `verify_running_handle_fields`; the gates are not released by the op, so they are hypotheses. -/
+theorem verifyHeld_running_handle_fields (s : St) (p : Parked) (kn : Nat → Bool) (he : s.errC = true)
+    (hp : s.panicked = none) (hgo : s.gateOpen = false) (hgr : s.gateRead = false) :
+    (handle s p kn .verifyHeld).1.1.panicked = none ∧ (handle s p kn .verifyHeld).1.1.stopAnn = true ∧
+    (handle s p kn .verifyHeld).1.1.gateOpen = false ∧ (handle s p kn .verifyHeld).1.1.gateRead = false ∧
+    (handle s p kn .verifyHeld).1.1.doVerify = true ∧ (handle s p kn .verifyHeld).1.1.failOpen = s.failOpen ∧
+    (handle s p kn .verifyHeld).1.1.info = s.info ∧ (handle s p kn .verifyHeld).1.1.stopHang = s.stopHang := by
+  have hns : ¬ (({ s with persisted := none, doVerify := true } : St).status = .stopped) := by
+    rw [status_stopped_iff]; simp [he]
+  simp only [handle]
+  unfold handleVerifyCommand
+  simp only [onSt_fst]
+  rw [if_neg hns]
+  simp only [onSt_fst]
+  obtain ⟨g1, g2⟩ := stop_gates_off ({ s with persisted := none, doVerify := true }) false hgo hgr
+  exact ⟨by rw [stop_panicked]; exact hp, stop_stopAnn_of_errC _ _ he, g1, g2, by simp, by simp, by simp, by simp⟩
+
+/-- `verify_from_running_ends_stopped_or_hangs` for `Op.verifyHeld`, the storage gates being released. -/
+theorem verifyHeld_from_running_ends_stopped_or_hangs (s : St) (p : Parked) (kn : Nat → Bool) (h : Life s)
+    (he : s.errC = true) (hi : s.info = true) (hp : s.panicked = none) (hf : s.failOpen = false)
+    (hgo : s.gateOpen = false) (hgr : s.gateRead = false) :
+    ((step s p kn .verifyHeld).1.st.status = .stopped ∧ (step s p kn .verifyHeld).1.st.doVerify = false) ∨
+    (s.stopHang = true ∧ (step s p kn .verifyHeld).1.st.status = .stopping ∧
+      (step s p kn .verifyHeld).1.st.stopHang = true ∧ (step s p kn .verifyHeld).1.st.doVerify = true) := by
+  have h0 : Life { s with sto := [], mayStart := [], closedDl := [], mayStartI := false } := h.congr (by lframe)
+  obtain ⟨a1, a2, a3, a4, a5, a6, a7, a8⟩ :=
+    verifyHeld_running_handle_fields { s with sto := [], mayStart := [], closedDl := [], mayStartI := false } p kn he hp
+      hgo hgr
+  cases hh : s.stopHang
+  · refine Or.inl ?_
+    rw [status_stopped_iff, step_st]
+    generalize hm : (handle { s with sto := [], mayStart := [], closedDl := [], mayStartI := false } p kn .verifyHeld) = r at *
+    have hlA : Life r.1.1 := by rw [← hm]; exact handle_life _ p kn .verifyHeld h0
+    obtain ⟨d1, d2⟩ := pending_verify_completes 8 r.1 hlA a1 a2 (a8.trans hh) a5 (a7.trans hi) (a6.trans hf) a3 a4
+    rw [settle_step _ r.2.2 p.isSome (runWorkers_life 12 r.1 hlA) (Or.inl d1)]
+    exact ⟨d1, d2⟩
+  · refine Or.inr ⟨rfl, ?_⟩
+    rw [status_stopping_iff, step_st]
+    generalize hm : (handle { s with sto := [], mayStart := [], closedDl := [], mayStartI := false } p kn .verifyHeld) = r at *
+    have hlA : Life r.1.1 := by rw [← hm]; exact handle_life _ p kn .verifyHeld h0
+    obtain ⟨d1, d2, d3, d4, d5⟩ := runWorkers_hangs_dv 12 r.1 hlA a2 (a8.trans hh)
+    rw [settle_step _ r.2.2 p.isSome d5 (Or.inr d2)]
+    exact ⟨⟨d1, d2⟩, d3, d4.trans a5⟩
+
 end Rain.Loop
